@@ -397,7 +397,7 @@ static void ph_cells(void *u) {
     // contiguous blocks so that each worker's on-demand graph stays local
     size_t lo = g_dom.n * mc_wid / mc_nw, hi = g_dom.n * (mc_wid + 1) / mc_nw;
     for (size_t i = lo; i < hi; i++) {
-        if ((i & 15) == 0 && mc_expired()) return;
+        if (mc_tick(15)) return;
         uint64_t h = g_dom.v[i];
         mc_states(1);
         for (int k = 0; k <= g_K; k++) MC_RUN(OP_DISK, H(h), I(k));
@@ -431,7 +431,7 @@ static void ph_bigk(void *u) {
 static void ph_nbrx(void *u) {
     size_t lo = g_dom.n * mc_wid / mc_nw, hi = g_dom.n * (mc_wid + 1) / mc_nw;
     for (size_t i = lo; i < hi; i++) {
-        if ((i & 63) == 0 && mc_expired()) return;
+        if (mc_tick(63)) return;
         MC_RUN(OP_NBRX, H(g_dom.v[i]));
     }
 }
